@@ -288,6 +288,7 @@ func evalCmd(args []string) error {
 	out := fs.String("out", "", "ndjson trace to write")
 	useChain := fs.Bool("chain", false, "additionally install every environment on a real chain through the $acl kernel contract")
 	par := fs.Int("par", 8, "goroutines evaluating one column")
+	only := fs.String("only", "", "evaluate only environment SL:E (replay of one case column)")
 	fs.Parse(args)
 	u, err := loadUniverse(*in)
 	if err != nil {
@@ -315,6 +316,9 @@ func evalCmd(args []string) error {
 			return fmt.Errorf("slice %s: %d multisets enumerated, the specification has %d", sl.Name, len(ms), sl.Nms)
 		}
 		for ei, raw := range sl.Envs {
+			if *only != "" && *only != fmt.Sprintf("%d:%d", sl.Sl, ei+1) {
+				continue
+			}
 			var env map[string]rule
 			if err := json.Unmarshal(raw, &env); err != nil {
 				return err
